@@ -406,7 +406,7 @@ def check_C06(ctx):
         out = []
         for k, c in enumerate(cs):
             c2 = dict(c)
-            c2["style"] = k % 7 + 1
+            c2["style"] = k % 9 + 1
             c2["id"] = "%s~s%d" % (c["id"], c2["style"])
             out.append(c2)
         return cs + out
@@ -783,7 +783,7 @@ def check_C01(ctx):
     # every filter on something big (and two-filter chains): back within the deadline
     scal = ctx.gen("scaling", 600 if ctx.quick else 3000)
     ctx.validate(ctx.run_cases(scal, deadline=30, workers=4), module="TraceC01", nontrivial_key=lambda o: o.get("text", ""))
-    pairs = ctx.gen("weirdpairs", 45 * 45 * 22)
+    pairs = ctx.gen("weirdpairs", 53 * 53 * 22)
     ctx.validate(ctx.run_cases(pairs, deadline=30), module="TraceC01", nontrivial_key=lambda o: o.get("text", ""))
     progs = ctx.gen("prog", 2000 if ctx.quick else 30000)
     for g in progs:
